@@ -112,6 +112,7 @@ class Repo:
         self._argform()
         self._index()
         self._link()
+        self._tag_tuple_elements()
 
     # ------------------------------------------------------------------ load
     def _load(self):
@@ -298,6 +299,34 @@ class Repo:
                     ci.ext_bases.append(got[4:])
                 else:
                     ci.ext_bases.append(txt)
+
+    def _tag_tuple_elements(self):
+        """D23 with the class table: `self.m(...)[k]` (constant k) where the method the class resolves `m` to returns a tuple display on
+        every return is the k-th element of its result - the `_tuple_elt` form the walker produces for an unpacking of the same call"""
+        if os.environ.get("VERIF_NO_CANON"):
+            return
+
+        def tuple_fn(fi) -> bool:
+            rets = []
+
+            def collect(n):
+                for c in ast.iter_child_nodes(n):
+                    if isinstance(c, (ast.FunctionDef, ast.AsyncFunctionDef, ast.Lambda, ast.ClassDef)):
+                        continue
+                    if isinstance(c, ast.Return):
+                        rets.append(c)
+                    collect(c)
+            collect(fi.node)
+            return bool(rets) and all(isinstance(r.value, ast.Tuple) and len(r.value.elts) >= 2 for r in rets)
+        for ci in self.all_classes():
+            for fi in ci.methods.values():
+                for n in ast.walk(fi.node):
+                    if isinstance(n, ast.Subscript) and isinstance(n.ctx, ast.Load) and isinstance(n.slice, ast.Constant) and isinstance(n.slice.value, int) \
+                            and not isinstance(n.slice.value, bool) and n.slice.value >= 0 and isinstance(n.value, ast.Call) \
+                            and isinstance(n.value.func, ast.Attribute) and isinstance(n.value.func.value, ast.Name) and n.value.func.value.id == "self":
+                        tgt = self.resolve_method(ci, n.value.func.attr)
+                        if tgt is not None and tuple_fn(tgt):
+                            n._tuple_elt = True  # type: ignore[attr-defined]
 
     # ------------------------------------------------------------- hierarchy
     def all_classes(self) -> Iterator[ClassInfo]:
